@@ -296,8 +296,14 @@ def rule_winalias_bounds(ctx, prop: str) -> RuleResult:
                 srcs = {ast.unparse(key)}
                 if isinstance(key, ast.Name):
                     for k in ast.walk(body):
-                        if isinstance(k, ast.Assign) and len(k.targets) == 1 and dotted(k.targets[0]) == key.id:
-                            srcs.add(ast.unparse(k.value))
+                        if isinstance(k, ast.Assign) and len(k.targets) == 1:
+                            t0 = k.targets[0]
+                            if dotted(t0) == key.id:
+                                srcs.add(ast.unparse(k.value))
+                            elif isinstance(t0, ast.Tuple) and isinstance(k.value, ast.Tuple) and len(t0.elts) == len(k.value.elts):
+                                for te, ve in zip(t0.elts, k.value.elts):
+                                    if dotted(te) == key.id:
+                                        srcs.add(ast.unparse(ve))
                 ok = any(actual in t for t in srcs)
                 res.ob(ok)
                 res.sample(f"{f.qualname} Call: translate_eff keyed by `{' / '.join(sorted(srcs))[:80]}` accounts for the renamed window variable `{actual}`: {ok}")
